@@ -105,27 +105,37 @@ def min_cost_flow[Node](
     demand: int,
 ) -> Result:
     """Route demand units from source to sink at minimum total cost."""
-    capacity = defaultdict(lambda: defaultdict(int))
-    cost = defaultdict(lambda: defaultdict(lambda: float("inf")))
+    # Residual graph with one forward and one backward edge per input arc, so that parallel
+    # and anti-parallel arcs keep their own capacity and cost: edge e and e ^ 1 are partners.
+    edge_to: list[Node] = []
+    edge_cap: list[int] = []
+    edge_cost: list[float] = []
+    edge_from: list[Node] = []
+    adj: dict[Node, list[int]] = defaultdict(list)
     nodes = set()
 
     for u in graph:
         nodes.add(u)
         for v, cap, c in graph[u]:
             nodes.add(v)
-            capacity[u][v] += cap
-            cost[u][v] = min(cost[u][v], c)
-            if cost[v][u] == float("inf"):
-                cost[v][u] = -c
+            adj[u].append(len(edge_to))
+            edge_from.append(u)
+            edge_to.append(v)
+            edge_cap.append(cap)
+            edge_cost.append(c)
+            adj[v].append(len(edge_to))
+            edge_from.append(v)
+            edge_to.append(u)
+            edge_cap.append(0)
+            edge_cost.append(-c)
 
-    flow = defaultdict(lambda: defaultdict(int))
     total_cost = 0
     total_flow = 0
     iterations = 0
 
     def bellman_ford():
         dist = {n: float("inf") for n in nodes}
-        parent = {n: None for n in nodes}
+        parent_edge: dict[Node, int] = {}
         dist[source] = 0
 
         for _ in range(len(nodes) - 1):
@@ -133,52 +143,52 @@ def min_cost_flow[Node](
             for u in nodes:
                 if dist[u] == float("inf"):
                     continue
-                for v in nodes:
-                    residual = capacity[u][v] - flow[u][v] + flow[v][u]
-                    if residual > 0 and dist[u] + cost[u][v] < dist[v]:
-                        dist[v] = dist[u] + cost[u][v]
-                        parent[v] = u
+                for e in adj[u]:
+                    v = edge_to[e]
+                    if edge_cap[e] > 0 and dist[u] + edge_cost[e] < dist[v]:
+                        dist[v] = dist[u] + edge_cost[e]
+                        parent_edge[v] = e
                         updated = True
             if not updated:
                 break
 
-        if dist[sink] == float("inf"):
-            return None, float("inf")
+        if sink not in dist or dist[sink] == float("inf"):
+            return None
 
         path = []
         node = sink
-        while node is not None:
-            path.append(node)
-            node = parent[node]
+        while node != source:
+            e = parent_edge[node]
+            path.append(e)
+            node = edge_from[e]
+            if len(path) > len(nodes):
+                return None  # negative cycle in the residual graph: no shortest path exists
         path.reverse()
-
-        return path, dist[sink]
+        return path
 
     while total_flow < demand:
         iterations += 1
-        path, path_cost = bellman_ford()
+        path = bellman_ford() if source in nodes else None
         if path is None:
             return Result({}, float("inf"), iterations, iterations, Status.INFEASIBLE)
 
         path_flow = demand - total_flow
-        for u, v in zip(path, path[1:]):
-            residual = capacity[u][v] - flow[u][v] + flow[v][u]
-            path_flow = min(path_flow, residual)
+        for e in path:
+            path_flow = min(path_flow, edge_cap[e])
 
-        for u, v in zip(path, path[1:]):
-            if flow[v][u] > 0:
-                reduce = min(path_flow, flow[v][u])
-                flow[v][u] -= reduce
-                remaining = path_flow - reduce
-                flow[u][v] += remaining
-                total_cost += cost[u][v] * remaining - cost[v][u] * reduce
-            else:
-                flow[u][v] += path_flow
-                total_cost += cost[u][v] * path_flow
+        for e in path:
+            edge_cap[e] -= path_flow
+            edge_cap[e ^ 1] += path_flow
+            total_cost += edge_cost[e] * path_flow
 
         total_flow += path_flow
 
-    flows = {(u, v): flow[u][v] for u in flow for v in flow[u] if flow[u][v] > 0}
+    # Flow on an input arc = what accumulated on its backward partner; parallel arcs are pooled
+    flows: dict[tuple[Node, Node], int] = {}
+    for e in range(0, len(edge_to), 2):
+        if edge_cap[e ^ 1] > 0:
+            key = (edge_from[e], edge_to[e])
+            flows[key] = flows.get(key, 0) + edge_cap[e ^ 1]
     return Result(flows, total_cost, iterations, iterations)
 
 
